@@ -1075,6 +1075,31 @@ def mkFScalar (db : Db) (number : Rat) (num : Int) (den : Nat) (unit cat : Sym) 
     let q ← obtainSimple db unit cat 0
     newObj (.fscalar q v)
 
+/-- the caller's hand-made mapping `OrderedDict((category, [unit, exp]), …)`: new `[unit, exp]` lists -/
+def allocPairs : List (Sym × Sym × Int) → M (List (Sym × Ref))
+  | [] => pure []
+  | (c, u, e) :: rest => do
+    let r ← allocM (.pair u e)
+    let es ← allocPairs rest
+    pure ((c, r) :: es)
+
+/-- `cls.CreateWithQuantity(Quantity.CreateDerived(OrderedDict(items)), value)`: a value object on a
+hand-made composing map (the only way to two different units of ONE quantity type inside a quantity;
+Multiply/Divide unify them) -/
+def mkDerived (db : Db) (cls : Cls) (items : List (Sym × Sym × Int)) (v : Rat) (k : Kind) (xs : List Rat) :
+    M Nat := do
+  let es ← allocPairs items
+  let q ← createDerived db es true 0
+  match cls with
+  | .scalar => newObj (.scalar q v)
+  | .array => do
+    let c ← allocM (.seq k xs)
+    newObj (.array q c)
+  | .fixed => do
+    let c ← allocM (.seq k xs)
+    mkFixedWith none q c
+  | .fscalar => failM .other
+
 /-! ### histories -/
 
 inductive Op
@@ -1086,6 +1111,7 @@ inductive Op
   | mkEmptyArray (k : Kind) (xs : List Rat)
   | mkFixed (dim : Nat) (k : Kind) (xs : List Rat) (unit cat : Sym)
   | mkFScalar (number : Rat) (num : Int) (den : Nat) (unit cat : Sym)
+  | mkDerived (cls : Cls) (items : List (Sym × Sym × Int)) (v : Rat) (k : Kind) (xs : List Rat)
   | arith (f : BinOp) (a b : Operand)
   | eq (i j : Nat)
   | lt (i j : Nat)
@@ -1111,6 +1137,7 @@ def exec (db : Db) : Op → M Out
   | .mkEmptyArray k xs => fresh (mkEmptyArray db k xs)
   | .mkFixed d k xs u c => fresh (mkFixed db d k xs u c)
   | .mkFScalar n a b u c => fresh (mkFScalar db n a b u c)
+  | .mkDerived cls items v k xs => fresh (mkDerived db cls items v k xs)
   | .arith f a b => fresh (arith db f a b)
   | .eq i j => do let b ← objEq i j; pure (.bool b)
   | .lt i j => do let b ← objLt db i j; pure (.bool b)
